@@ -109,8 +109,68 @@ def is_concrete(v):
     return z3.is_bv_value(v) or z3.is_true(v) or z3.is_false(v) or z3.is_int_value(v)
 
 
+_HARD = None
+
+
+def _hard_kinds():
+    global _HARD
+    if _HARD is None:
+        _HARD = {z3.Z3_OP_BMUL: 'mul', z3.Z3_OP_BSDIV: 'sdiv', z3.Z3_OP_BUDIV: 'udiv', z3.Z3_OP_BSREM: 'srem', z3.Z3_OP_BUREM: 'urem',
+                 z3.Z3_OP_BSDIV_I: 'sdiv', z3.Z3_OP_BUDIV_I: 'udiv', z3.Z3_OP_BSREM_I: 'srem', z3.Z3_OP_BUREM_I: 'urem', z3.Z3_OP_BSMOD: 'smod', z3.Z3_OP_BSMOD_I: 'smod'}
+    return _HARD
+
+
+def abstract_arith(exprs):
+    """replace bit-vector * / % by uninterpreted functions (same symbol for the same operation and width). Unsat of the result
+    implies unsat of the original (every model of the original induces one of the abstraction); returns (new exprs, n replaced)"""
+    hard = _hard_kinds()
+    cache = {}
+    ufs = {}
+    count = [0]
+
+    def go(e):
+        k = e.get_id()
+        r = cache.get(k)
+        if r is not None:
+            return r
+        if not z3.is_app(e) or e.num_args() == 0:
+            cache[k] = e
+            return e
+        args = [go(e.arg(i)) for i in range(e.num_args())]
+        dk = e.decl().kind()
+        if dk in hard and z3.is_bv(e):
+            w = e.size()
+            r = args[0]
+            for a in args[1:]:
+                f = ufs.get((hard[dk], w))
+                if f is None:
+                    f = z3.Function(f'uf_{hard[dk]}_{w}', z3.BitVecSort(w), z3.BitVecSort(w), z3.BitVecSort(w))
+                    ufs[(hard[dk], w)] = f
+                r = f(r, a)
+                count[0] += 1
+        else:
+            r = e.decl()(*args) if any(a.get_id() != e.arg(i).get_id() for i, a in enumerate(args)) else e
+        cache[k] = r
+        return r
+    out = [go(x) for x in exprs]
+    return out, count[0]
+
+
 def robust_check(solver, retry_timeout_ms=120000):
-    """solver.check(); on unknown retry once in a fresh solver (other tactic, longer timeout). Returns (result, model or None)"""
+    """solver.check() with two helps: (1) queries containing * / % are first tried with those operators abstracted to uninterpreted
+    functions (unsat there is unsat here; typical for comparing two renderings of the same expression); (2) on unknown, one retry in a
+    fresh solver (other tactic, longer timeout). Returns (result, model or None)"""
+    try:
+        asr = list(solver.assertions())
+        ab, n = abstract_arith(asr)
+        if n:
+            s0 = z3.Solver()
+            s0.set('timeout', 10000)
+            s0.add(*ab)
+            if s0.check() == z3.unsat:
+                return z3.unsat, None
+    except z3.Z3Exception:
+        pass
     r = solver.check()
     if r == z3.sat:
         return r, solver.model()
